@@ -81,3 +81,25 @@ package sm2
 //@ ensures toolong: len(id) >= 8192 ==> nonnil(err) && za == nil
 //@ ensures ok: len(id) < 8192 ==> !nonnil(err) && len(za) == 32 && forall(i, 0, 32, za[i] == digestbyte(za_stream(id, pubx, puby), i))
 //@ assigns nothing
+
+// ---- signing (C02, C19) ----
+// GM/T 0003.2: r = (e + x1) mod n with (x1,y1) = [k]G;  s = ((1+d)^-1 (k - r d)) mod n;
+// a candidate k is rejected iff k is outside [1,n-1], r = 0, r + k = n or s = 0.
+//@ define std_r(e, k) = (e + affx(gmul(k))) % N
+//@ define std_s(d, e, k) = (invmod(1 + d, N) * ((k - std_r(e, k) * d) % N)) % N
+//@ define rejected(d, e, k) = k >= N || k == 0 || std_r(e, k) == 0 || std_r(e, k) + k == N || std_s(d, e, k) == 0
+
+//@ func sm2.SignHashed
+//@ mode int
+//@ use_axiom order
+//@ ensures badkey: !(len(priv) <= 32 && 1 <= be(priv) && be(priv) <= N - 2) ==> nonnil(err) && rdidx == old(rdidx)
+//@ ensures drawn: !nonnil(err) ==> old(rdidx) < rdidx && !rejected(be(priv), be(e), draw(rdidx - 1))
+//@ ensures skipped: !nonnil(err) ==> forall(j, old(rdidx), rdidx - 1, rejected(be(priv), be(e), draw(j)))
+//@ ensures val: !nonnil(err) ==> len(r) == 32 && len(s) == 32 && be(r) == std_r(be(e), draw(rdidx - 1)) && be(s) == std_s(be(priv), be(e), draw(rdidx - 1))
+//@ ensures fail: nonnil(err) ==> r == nil && s == nil
+//@ after copy(buf[32-len(d1Bytes):], d1Bytes) :: leftpad(buf[0:32], d1Bytes)
+//@ after sInt.Mod(&sInt, n) :: trust L2: (rkInt * invmod(1 + be(priv), N) - rInt) % N == (invmod(1 + be(priv), N) * ((k - rInt * be(priv)) % N)) % N
+//@ loop 1
+//@ modifies rdidx
+//@ invariant idx: old(rdidx) <= rdidx
+//@ invariant rej: forall(j, old(rdidx), rdidx, rejected(be(priv), be(e), draw(j)))
